@@ -592,6 +592,21 @@ var Corpus = []Scenario{
 		x.Rounds(3)
 		x.D.Converge(40)
 	}},
+	{"canary-restart-shortly-before-duration-ends", []string{"C05", "C06", "C14"}, func(x Scn) {
+		// one restart of a canary pod shortly before the canary duration ends (fewer units before the end than noRestartsDuration,
+		// and below the auto-pause threshold): the duration elapses first, the restart-free window still postpones the promotion
+		sc := CanaryStrategy("1")
+		sc.CDuration, sc.CNoRestarts = 5, 4
+		x.Setup(3, "A", sc)
+		for i, tmpl := range []string{"B", "C"} {
+			x.Template(tmpl)
+			x.AwaitCanaryPods(3)
+			x.Rounds(1 + 2*i)
+			x.RestartCanaryPods(1)
+			x.Rounds(8) // the EDS is reconciled every unit: between the end of the duration and restart + noRestartsDuration it must wait
+			x.D.Converge(40)
+		}
+	}},
 	{"canary-autopause-with-paused-false-annotation", []string{"C08", "C05", "C14"}, func(x Scn) {
 		// the annotation canary-paused=false is present (a pause that was withdrawn by overwriting it) and the canary pauses itself:
 		// the replica set's own condition counts, the duration does not promote it
